@@ -56,9 +56,10 @@ type busCase struct {
 	cancels  map[int]context.CancelFunc
 	nextObs  int
 	maxDepth int
+	ptimeout bool
 	calls    int
 	stores   map[int]*recStore
-	faults   []bool
+	faults   []int
 
 	mu         sync.Mutex
 	pending    []uint64
@@ -84,10 +85,21 @@ type recStore struct {
 }
 
 func tyOfName(name string) int {
+	if strings.HasPrefix(name, "n") && strings.Contains(name, ".v") {
+		return atoi(name[1:strings.Index(name, ".v")])
+	}
 	if i := strings.LastIndex(name, "T"); i >= 0 {
 		return atoi(name[i+1:])
 	}
 	return 999
+}
+
+// nameOK checks a value-dependent custom type name ("nXX.vK") against the event value.
+func nameOK(name string, v int) bool {
+	if strings.HasPrefix(name, "n") && strings.Contains(name, ".v") {
+		return atoi(name[strings.Index(name, ".v")+2:]) == v%2
+	}
+	return true
 }
 
 func depthOf(ctx context.Context) int {
@@ -103,9 +115,15 @@ func (s *recStore) Append(ctx context.Context, e *eb.Event) (eb.Offset, error) {
 		V int `json:"v"`
 	}
 	_ = json.Unmarshal(e.Data, &pl)
+	if !nameOK(e.Type, pl.V) {
+		cs.emit("!stored-type-name %s for value %d", e.Type, pl.V)
+	}
 	fails := false
 	if len(cs.faults) > 0 {
-		fails = cs.faults[0]
+		fails = cs.faults[0] != 0
+		if cs.faults[0] == 2 && cs.ptimeout {
+			<-ctx.Done() // a store that hangs until the persistence timeout expires
+		}
 		cs.faults = cs.faults[1:]
 	}
 	if fails {
@@ -525,6 +543,9 @@ func busDomain(lines []string) []string {
 						v, p := e.(busEvt).get()
 						cs.emit("perr %d %d %d %s", p.depth, tyOfName(t.String()), v, b01(strings.Contains(err.Error(), "marshal")))
 					}))
+				case w == "ptimeout":
+					opts = append(opts, eb.WithPersistenceTimeout(30*time.Millisecond))
+					cs.ptimeout = true
 				case w == "obs":
 					opts = append(opts, eb.WithObservability(recObs{cs}))
 				}
@@ -533,7 +554,7 @@ func busDomain(lines []string) []string {
 			cs.maxDepth = atoi(f[1])
 		case "faults":
 			for _, w := range f[1:] {
-				cs.faults = append(cs.faults, w == "1")
+				cs.faults = append(cs.faults, atoi(w))
 			}
 		case "body":
 			idx := atoi(f[1])
